@@ -10,37 +10,40 @@
 (*   most P pre-edits, between 1 and Q post-edits, and whether post-edit target *)
 (*   vectors are all of {both,o,c}^n or only the ones in TgtVecs.               *)
 EXTENDS ModelClone, Json, IOUtils, SequencesExt
-CONSTANTS Tier,     \* "quick" | "thorough"
-          Fam       \* "std" (Problem / ContingentProblem / HierarchicalProblem) | "ma"
-Cls0 == IF Fam = "ma" THEN "ma" ELSE "plain"
+CONSTANTS Tier      \* "quick" | "thorough"
+\* two families of histories: "std" (Problem / ContingentProblem / HierarchicalProblem share the edits
+\* of class "plain") is written to IOEnv.OUT_STD, "ma" to IOEnv.OUT_MA
 Tgts == {"both", "o", "c"}
 \* target vectors for two post-edits: the second edit probes what the first did to the other problem
 TgtVecs == {<<"o", "c">>, <<"c", "o">>, <<"o", "both">>, <<"c", "both">>, <<"both", "both">>, <<"both", "o">>}
 Plan == IF Tier = "quick" THEN {<<FALSE, 1, 1>>, <<TRUE, 1, 2>>, <<TRUE, 2, 1>>}
-        ELSE {<<FALSE, 1, 1>>, <<FALSE, 2, 1>>, <<TRUE, 1, 2>>, <<TRUE, 2, 2>>, <<FALSE, 0, 2>>}
+        ELSE {<<FALSE, 1, 1>>, <<FALSE, 2, 1>>, <<TRUE, 1, 2>>, <<FALSE, 0, 2>>}
 
 Loci(e) == {Locus(e), Locus2(e)}
-Univ(small) == IF small THEN SmallEdits(Cls0) ELSE Edits(Cls0)
+Univ(k, small) == IF small THEN SmallEdits(k) ELSE Edits(k)
 \* connected edit sequences of length n over the universe
-RECURSIVE Chains(_, _)
-Chains(small, n) ==
-   IF n = 1 THEN {<<e>> : e \in Univ(small)}
-   ELSE LET prev == Chains(small, n - 1) IN
-        UNION {{Append(s, e) : e \in {x \in Univ(small) : \E i \in DOMAIN s : Loci(x) \cap Loci(s[i]) # {}}} : s \in prev}
+RECURSIVE Chains(_, _, _)
+Chains(k, small, n) ==
+   IF n = 1 THEN {<<e>> : e \in Univ(k, small)}
+   ELSE LET prev == Chains(k, small, n - 1) IN
+        UNION {{Append(s, e) : e \in {x \in Univ(k, small) : \E i \in DOMAIN s : Loci(x) \cap Loci(s[i]) # {}}} : s \in prev}
 TgtV(n) == IF n = 1 THEN {<<t>> : t \in Tgts} ELSE IF n = 2 THEN TgtVecs ELSE {[i \in 1..n |-> "both"]}
-HistOf(small, P, Q) ==
+HistOf(k, small, P, Q) ==
    UNION {UNION {{[pre |-> SubSeq(s, 1, i),
                    post |-> [j \in 1..(Len(s) - i) |-> [e |-> s[i + j], tgt |-> tv[j]]]]
                   : tv \in TgtV(Len(s) - i)}
                  : i \in {i \in 0..P : Len(s) - i >= 1 /\ Len(s) - i <= Q}}
-          : s \in UNION {Chains(small, n) : n \in 1..(P + Q)}}
-Histories == UNION {HistOf(pl[1], pl[2], pl[3]) : pl \in Plan}
+          : s \in UNION {Chains(k, small, n) : n \in 1..(P + Q)}}
+Histories(k) == UNION {HistOf(k, pl[1], pl[2], pl[3]) : pl \in Plan}
 \* small = every edit of the history is one of the representatives (the driver replays all of those)
-SmallU == SmallEdits(Cls0)
-Tag(h) == [pre |-> h.pre, post |-> h.post,
-           small |-> (\A i \in DOMAIN h.pre : h.pre[i] \in SmallU) /\ (\A i \in DOMAIN h.post : h.post[i].e \in SmallU)]
-ASSUME ndJsonSerialize(IOEnv.OUT, SetToSeq({Tag(h) : h \in Histories}))
-ASSUME PrintT(<<"EMITTED", Cardinality(Histories)>>)
+Tag(k, h) == LET SmallU == SmallEdits(k) IN
+             [pre |-> h.pre, post |-> h.post,
+              small |-> (\A i \in DOMAIN h.pre : h.pre[i] \in SmallU) /\ (\A i \in DOMAIN h.post : h.post[i].e \in SmallU)]
+HStd == Histories("plain")
+HMa == Histories("ma")
+ASSUME ndJsonSerialize(IOEnv.OUT_STD, SetToSeq({Tag("plain", h) : h \in HStd}))
+ASSUME ndJsonSerialize(IOEnv.OUT_MA, SetToSeq({Tag("ma", h) : h \in HMa}))
+ASSUME PrintT(<<"EMITTED", Cardinality(HStd), Cardinality(HMa)>>)
 VARIABLE dummy
 Init == dummy = 0
 Next == UNCHANGED dummy
